@@ -114,4 +114,76 @@ Proof.
   apply remove_absent. exact Hc.
 Qed.
 
+(* ------------------------------------------------------------------ the same on ANY valid document with the tokens and root
+   type of the step's result (what an undo stack holds): needed to chain undos through a history *)
+Theorem mark_step_undo_cond_on st f t doc d' e d'' :
+  V doc -> V e -> mark_step_range st = Some (f, t) ->
+  apply s st doc = ROk d' -> DT e = DT d' -> node_ty s e = node_ty s d' -> apply s (opposite st) e = ROk d'' ->
+  (forall i t0, f <= i -> i < t -> nth_error (DT doc) i = Some t0 ->
+     let p := snd (ctxT (node_ty s doc) (DT doc) i) in
+     ftok s (step_updN s (opposite st)) p (ftok s (step_updN s st) p t0) = t0) ->
+  DT d'' = DT doc /\ node_ty s d'' = node_ty s doc.
+Proof.
+  intros Hd He Hr Ha HeT Hety Hb Hcond.
+  assert (Hr' : mark_step_range (opposite st) = Some (f, t)) by (destruct st; try discriminate; exact Hr).
+  assert (R1 : RunV s doc [st] d') by (cbn [RunV]; split; [exact Hd|]; exists d'; split; [exact Ha|reflexivity]).
+  assert (R2 : RunV s e [opposite st] d'') by (cbn [RunV]; split; [exact He|]; exists d''; split; [exact Hb|reflexivity]).
+  assert (A1 : Forall IsMarkStep [st]) by (constructor; [exists f, t; exact Hr|constructor]).
+  assert (A2 : Forall IsMarkStep [opposite st]) by (constructor; [exists f, t; exact Hr'|constructor]).
+  destruct (mark_run_pointwise s _ _ _ A1 R1) as (T1 & L1 & C1 & N1).
+  destruct (mark_run_pointwise s _ _ _ A2 R2) as (T2 & L2 & C2 & N2).
+  split; [|rewrite T2, Hety, T1; reflexivity].
+  apply nth_error_ext_eq. intros i. destruct (nth_error (DT doc) i) as [t0|] eqn:Hn.
+  - pose proof (N1 i t0 Hn) as H1. cbn [fold_left] in H1. rewrite <- HeT in H1.
+    rewrite (N2 i _ H1). cbn [fold_left]. rewrite Hety, T1, HeT, C1.
+    unfold apply_tok, touches_tok. rewrite Hr, Hr'.
+    destruct ((f <=? i) && (i <? t)) eqn:E; [|reflexivity].
+    apply andb_prop in E. destruct E as [E1 E2]. apply Nat.leb_le in E1. apply Nat.ltb_lt in E2.
+    f_equal. exact (Hcond i t0 E1 E2 Hn).
+  - apply nth_error_None in Hn. apply nth_error_None. rewrite L2, HeT, L1. exact Hn.
+Qed.
+
+Definition AddUndoCond (f t : nat) (m : mark) (doc : node) : Prop :=
+  forall i t0, f <= i -> i < t -> nth_error (DT doc) i = Some t0 ->
+    sorted_rank (tmarks t0) /\ forall o, In o (tmarks t0) -> ok2 s (mnorm m) o.
+
+Definition RemoveUndoCond (f t : nat) (m : mark) (doc : node) : Prop :=
+  forall i t0, f <= i -> i < t -> nth_error (DT doc) i = Some t0 ->
+    let p := snd (ctxT (node_ty s doc) (DT doc) i) in
+    if is_atom_ty s (tok_ty t0) && allows_mark_type s p (m_ty m)
+    then add_to_set s (mnorm m) (remove_from_set (mnorm m) (tmarks t0)) = tmarks t0
+    else is_in_set (mnorm m) (tmarks t0) = false.
+
+Theorem add_mark_step_undo_on f t m doc d' e d'' :
+  V doc -> V e -> apply s (SAddMark f t m) doc = ROk d' -> DT e = DT d' -> node_ty s e = node_ty s d' ->
+  apply s (SRemoveMark f t m) e = ROk d'' -> AddUndoCond f t m doc ->
+  DT d'' = DT doc /\ node_ty s d'' = node_ty s doc.
+Proof.
+  intros Hd He Ha HeT Hety Hb Hcond.
+  apply (mark_step_undo_cond_on (SAddMark f t m) f t doc d' e d'' Hd He eq_refl Ha HeT Hety Hb).
+  intros i t0 H1 H2 Hn p. cbn [opposite step_updN]. rewrite ftok_ftok. apply ftok_id. set (ty := tok_ty t0).
+  destruct (Hcond i t0 H1 H2 Hn) as (Hs & Hok). unfold u_remove, u_add.
+  assert (Habs : remove_from_set (mnorm m) (tmarks t0) = tmarks t0).
+  { apply remove_absent. unfold is_in_set. destruct (existsb (fun item => mark_eqb item (mnorm m)) (tmarks t0)) eqn:E; [|reflexivity].
+    exfalso. apply existsb_exists in E. destruct E as (o & Ho & Eo). destruct (Hok o Ho) as (Hne & _).
+    rewrite mark_eqb_sym in Hne. congruence. }
+  destruct (is_atom_ty s ty && allows_mark_type s p (m_ty (mnorm m))); [|exact Habs].
+  rewrite add_to_set_spec, (ok2_not_blocked s _ _ Hok), kept_all by (intros o Ho; destruct (Hok o Ho) as (_ & H & _); exact H).
+  apply (remove_inserted s). exact Hok.
+Qed.
+
+Theorem remove_mark_step_undo_on f t m doc d' e d'' :
+  V doc -> V e -> apply s (SRemoveMark f t m) doc = ROk d' -> DT e = DT d' -> node_ty s e = node_ty s d' ->
+  apply s (SAddMark f t m) e = ROk d'' -> RemoveUndoCond f t m doc ->
+  DT d'' = DT doc /\ node_ty s d'' = node_ty s doc.
+Proof.
+  intros Hd He Ha HeT Hety Hb Hcond.
+  apply (mark_step_undo_cond_on (SRemoveMark f t m) f t doc d' e d'' Hd He eq_refl Ha HeT Hety Hb).
+  intros i t0 H1 H2 Hn p. cbn [opposite step_updN]. rewrite ftok_ftok. apply ftok_id.
+  pose proof (Hcond i t0 H1 H2 Hn) as Hc. cbv zeta in Hc. fold p in Hc. unfold u_remove, u_add.
+  replace (m_ty (mnorm m)) with (m_ty m) by reflexivity.
+  destruct (is_atom_ty s (tok_ty t0) && allows_mark_type s p (m_ty m)); [exact Hc|].
+  apply remove_absent. exact Hc.
+Qed.
+
 End WithSchema.
